@@ -266,4 +266,28 @@ def multiTraceC : List (Nat × JoinDef × Option St) → List COp → List (List
     jss.map (fun x => (stepC x.1 x.2.1 x.2.2 c).2) ::
       multiTraceC (jss.map (fun x => (x.1, x.2.1, (stepC x.1 x.2.1 x.2.2 c).1))) cs
 
+/-! ### `clear()` on a live manager, then reuse
+
+`StreamJoinManager::clear` empties `joins`, `stream_to_joins` and `result_handlers`: every join is
+unregistered at once (its node is dropped, no stream lists it any more). Afterwards any of the ids
+may be registered again with a fresh node (`COp.reg`). -/
+
+/-- a call on a live manager: one of the calls above, or `clear()` -/
+inductive XOp where
+  | ctl (c : COp)
+  | clear
+deriving Repr, DecidableEq
+
+/-- one call as seen by the join with index `i` -/
+def stepX (i : Nat) (j : JoinDef) (s : Option St) : XOp → Option St × List (Ev × Ev)
+  | .ctl c => stepC i j s c
+  | .clear => (none, [])
+
+/-- the manager's loop with control calls and `clear()` (`multiTraceC` when there is no `clear`) -/
+def multiTraceX : List (Nat × JoinDef × Option St) → List XOp → List (List (List (Ev × Ev)))
+  | _, [] => []
+  | jss, c :: cs =>
+    jss.map (fun x => (stepX x.1 x.2.1 x.2.2 c).2) ::
+      multiTraceX (jss.map (fun x => (x.1, x.2.1, (stepX x.1 x.2.1 x.2.2 c).1))) cs
+
 end C14
